@@ -6,7 +6,9 @@
 #include <stdlib.h>
 #include <string.h>
 
+#ifndef MAXARGS
 #define MAXARGS 64
+#endif
 
 struct arg { unsigned char *p; size_t n; };
 
